@@ -111,6 +111,19 @@ def build(E):
         result=T.none, raises=["ValueError"])
     spec.trusted.append("assumed contract validate_url: returns only for URLs whose scheme is gemini, else ValueError (decided under C08/C19)")
 
+    # parse_url by an assumed contract as well (not called by the current code; a change that starts comparing parsed
+    # components instead of URLs stays within the subset and fails the loop-detection clauses instead of going undecided)
+    PURL = "nauyaca.utils.url:ParsedURL"
+    pu = {f: z3.Function(f"parsed_{f}", S, S) for f in ("hostname", "path", "query", "normalized")}
+    pu_port = z3.Function("parsed_port", S, z3.IntSort())
+
+    def purl_result(ctx, args):
+        u = ctx.force(args[0]).z
+        return T.make(lambda c, h: c.alloc(PURL, {"scheme": VStr("gemini"), "hostname": VStr(pu["hostname"](u)), "port": VInt(pu_port(u)), "path": VStr(pu["path"](u)),
+                                                  "query": VStr(pu["query"](u)), "fragment": VStr(""), "normalized": VStr(pu["normalized"](u)), "__constructed__": True}))
+    E.contracts["nauyaca.utils.url:parse_url"] = Contract("nauyaca.utils.url:parse_url", ensures=[], result=purl_result, raises=["ValueError"])
+    spec.trusted.append("assumed contract parse_url: components are functions of the URL (C19); distinct URLs may share host, port and path")
+
     # ---------------- _get_with_redirects --------------------------------------------------
     def gwr_args(ctx):
         cl = mk_client(ctx)
